@@ -24,17 +24,17 @@ import (
 // deterministically.
 
 type vpC18Stream struct {
-	id       uint64
-	s        *Stream
-	want     []byte // everything pushed before or together with the FIN
-	fin      bool
-	localFin bool
-	gone     bool // closed or reset
-	model    StreamState
-	reader   chan []byte // result of the reader goroutine (nil = not started)
-	readErr  chan error
+	id               uint64
+	s                *Stream
+	want             []byte // everything pushed before or together with the FIN
+	fin              bool
+	localFin         bool
+	gone             bool // closed or reset
+	model            StreamState
+	reader           chan []byte // result of the reader goroutine (nil = not started)
+	readErr          chan error
 	blockedAtFinData bool
-	chunks   int
+	chunks           int
 }
 
 func vpC18StartReader(st *vpC18Stream) {
